@@ -16,9 +16,12 @@ import (
 	"fmt"
 	"math/big"
 	"os"
+	"runtime/debug"
 	"sort"
 	"strings"
+	"sync"
 	"testing"
+	"time"
 
 	"pgregory.net/rapid"
 
@@ -134,6 +137,28 @@ func c12RapidPicker(rt *rapid.T, nthreads int, horizon int) (c12Picker, string) 
 		}
 		return best
 	}, "sched-pct"
+}
+
+// c12WindowPoints: the yield points that lie between the map operation and the count operation of
+// a shared lock / unlock. A pre-emption there is the trigger of finding C12-spinlock-release-delete-window.
+var c12WindowPoints = map[string]bool{"y:unlock.shared.beforeDelete": true, "y:trylock.shared.beforeAdd": true, "y:trylock.first.beforeAdd": true}
+
+// c12NoWindowPreempt wraps a picker so that a thread parked at a window point is always continued
+// (the map operation and the count operation become one atomic step); the inner picker is not
+// consulted for such forced steps.
+func c12NoWindowPreempt(inner c12Picker) c12Picker {
+	prev := -1
+	return func(s *hx.Sched, runnable []int) int {
+		if prev >= 0 && !s.Done(prev) && c12WindowPoints[s.Last(prev)] {
+			for _, r := range runnable {
+				if r == prev {
+					return prev
+				}
+			}
+		}
+		prev = inner(s, runnable)
+		return prev
+	}
 }
 
 // c12CoarseTargets: the protocol points at which the coarse mode pre-empts.
@@ -482,27 +507,6 @@ func c12GenLockScenario(cs *hx.Case) []c12LockThread {
 			th.Keys = []c12LK{{K: "k0", X: rapid.Bool().Draw(rt, "excl0")}}
 		}
 		ths = append(ths, th)
-	}
-	if c12Exclude[c12FindingWindow] {
-		for {
-			k, hit := c12LockShape(ths)
-			if !hit {
-				break
-			}
-			cs.Exclude(c12FindingWindow)
-			// keep one shared locker of the key, the others lock it exclusively
-			seen := false
-			for i := range ths {
-				for j := range ths[i].Keys {
-					if ths[i].Keys[j].K == k && !ths[i].Keys[j].X {
-						if seen {
-							ths[i].Keys[j].X = true
-						}
-						seen = true
-					}
-				}
-			}
-		}
 	}
 	return ths
 }
@@ -854,7 +858,7 @@ func (a *c12Result) equal(b *c12Result) bool {
 // is the statement itself; it is consulted when the (cheaper, stronger) model comparison fails, so
 // that a defect of the sequential code - which a one-at-a-time order reproduces - is not blamed on
 // the interleaving.
-func c12SerialExplains(prefix []hx.NOp, reqs []c12Req, got *c12Result, fs *hx.FindingSet) (bool, []int) {
+func c12SerialExplains(prefix []hx.NOp, reqs []c12Req, resub []int, got *c12Result, fs *hx.FindingSet) (bool, []int) {
 	var found []int
 	var perm func(acc []int, used uint)
 	perm = func(acc []int, used uint) {
@@ -875,6 +879,11 @@ func c12SerialExplains(prefix []hx.NOp, reqs []c12Req, got *c12Result, fs *hx.Fi
 				e.body(i)()
 			}
 			hx.WaitAsync()
+			for _, i := range resub {
+				if e.runs[i].tx != nil {
+					nm.N.State.DoTx(hx.CloneTx(e.runs[i].tx))
+				}
+			}
 			res, err := e.collect()
 			if err == nil && res.equal(got) {
 				found = append([]int{}, acc...)
@@ -902,6 +911,11 @@ func c12Concurrent(nm *hx.NodeMachine, prefix []hx.NOp, reqs []c12Req, pick c12P
 	}
 	e := c12Prepare(nm, reqs)
 	runs := e.runs
+	for _, r := range runs {
+		if r.skip != "" {
+			out.label("not-submitted:" + r.skip)
+		}
+	}
 	sch := hx.NewSched()
 	for i := range reqs {
 		sch.Spawn(e.body(i))
@@ -944,11 +958,101 @@ func c12Concurrent(nm *hx.NodeMachine, prefix []hx.NOp, reqs []c12Req, pick c12P
 	}
 	out.NT = c12RegionsOverlap(sch.Steps, len(reqs), share)
 
-	merr := e.modelOracle(&out)
-	serr := e.selectorOracle(&out, merr == nil)
+	e.judge(&out, prefix, fs, false)
+	if out.Err != nil {
+		out.Err = fmt.Errorf("%v; schedule: %s", out.Err, hx.FormatSteps(out.Steps))
+	}
+	return out
+}
+
+// c12RaceRun runs the requests as real goroutines (no scheduler, no hooks) and applies the same
+// end-state oracle (Part C, meant for a -race binary).
+func c12RaceRun(nm *hx.NodeMachine, prefix []hx.NOp, reqs []c12Req, fs *hx.FindingSet) c12Outcome {
+	var out c12Outcome
+	e := c12Prepare(nm, reqs)
+	start := make(chan struct{})
+	var wg sync.WaitGroup
+	panics := make([]string, len(reqs))
+	for i := range reqs {
+		i := i
+		body := e.body(i)
+		wg.Add(1)
+		go func() {
+			defer wg.Done()
+			defer func() {
+				if r := recover(); r != nil {
+					panics[i] = fmt.Sprintf("%v\n%s", r, debug.Stack())
+				}
+			}()
+			<-start
+			body()
+		}()
+	}
+	close(start)
+	done := make(chan struct{})
+	go func() { wg.Wait(); close(done) }()
+	select {
+	case <-done:
+	case <-time.After(90 * time.Second):
+		out.Wedged = true
+		return out
+	}
+	for i, p := range panics {
+		if p != "" {
+			out.Err = fmt.Errorf("request %d (%s) panicked: %s", i, reqs[i].Kind, p)
+			return out
+		}
+	}
+	hx.WaitAsync()
+	e.judge(&out, prefix, fs, true)
+	return out
+}
+
+// judge applies the end-state oracle after all requests have finished. race = the requests ran as
+// real goroutines (no scheduler): SelectUtxos is then not an atomic step.
+func (e *c12Env) judge(outp *c12Outcome, prefix []hx.NOp, fs *hx.FindingSet, race bool) {
+	nm, reqs, runs := e.nm, e.reqs, e.runs
+	fail := func(format string, args ...interface{}) {
+		outp.Err = fmt.Errorf(format, args...)
+	}
+	out := outp
+	var resub []int // refused transactions resubmitted after quiescence
+	merr := e.modelOracle(out)
+	serr := e.selectorOracle(out, merr == nil, race)
+	if merr == nil && serr == nil {
+		// quiescence: every lock taken by a finished request has been given back, so a refused
+		// transaction that is (still) valid on the resulting state is admitted when submitted alone
+		// (a lock that leaked would refuse it for ever: the requests it blocks never proceed)
+		for i, r := range runs {
+			if reqs[i].Kind != "dotx" || r.skip != "" || r.err == nil {
+				continue
+			}
+			already := false
+			for _, t := range nm.Pool {
+				if bytes.Equal(t.Txid, r.tx.Txid) {
+					already = true
+				}
+			}
+			if already || nm.PoolState().Check(r.tx, e.h) != nil {
+				continue
+			}
+			if err := nm.N.State.DoTx(hx.CloneTx(r.tx)); err != nil {
+				fail("after all requests had finished, transaction %s (refused during the concurrent phase with %v) is valid on the resulting state but DoTx refuses it: %v (lock keys %v)", hx.Hex8(r.tx.Txid), r.err, err, c12KeyList(r.keys))
+				return
+			}
+			nm.Pool = append(nm.Pool, r.tx)
+			resub = append(resub, i)
+			out.label("resubmitted-after-quiescence")
+		}
+		if err := nm.CheckState(); err != nil {
+			fail("after resubmitting refused transactions: %v", err)
+			return
+		}
+	}
 	got, cerr := e.collect() // reopens the node
 	if cerr != nil {
-		return fail("%v", cerr)
+		fail("%v", cerr)
+		return
 	}
 	if merr == nil {
 		if err := nm.CheckState(); err != nil {
@@ -956,19 +1060,20 @@ func c12Concurrent(nm *hx.NodeMachine, prefix []hx.NOp, reqs []c12Req, pick c12P
 		}
 	}
 	if merr != nil {
-		if ok, order := c12SerialExplains(prefix, reqs, got, fs); ok {
+		if ok, order := c12SerialExplains(prefix, reqs, resub, got, fs); ok {
 			// the sequential code itself deviates from the model here; the concurrent run did what
 			// a one-at-a-time order does, which is all C12 claims
 			out.label("model-mismatch-reproduced-by-serial-order(not-C12)")
 			out.SerialNote = fmt.Sprintf("serial order %v of the same requests leaves the same result; model comparison said: %v", order, merr)
 		} else {
-			return fail("%v", merr)
+			fail("%v", merr)
+			return
 		}
 	}
 	if serr != nil {
-		return fail("%v", serr)
+		fail("%v", serr)
+		return
 	}
-	return out
 }
 
 // modelOracle compares the result with the reference model: the admitted set applies in some
@@ -989,6 +1094,13 @@ func (e *c12Env) modelOracle(out *c12Outcome) error {
 			continue
 		}
 		if admitted[string(r.tx.Txid)] {
+			if len(r.keys) == 0 {
+				// a transaction without inputs, outputs and keys has no lock keys and no effect: two
+				// interleaved submissions both return nil and leave what one submission leaves (such
+				// a transaction never passes Chain.SubmitTx on a chain with fees; not generated)
+				out.label("keyless-tx-two-nil-returns")
+				continue
+			}
 			return fmt.Errorf("transaction %s was admitted twice (two DoTx calls of the same transaction returned nil)", hx.Hex8(r.tx.Txid))
 		}
 		admitted[string(r.tx.Txid)] = true
@@ -1146,7 +1258,7 @@ func (e *c12Env) modelOracle(out *c12Outcome) error {
 }
 
 // selectorOracle: what locking selections returned.
-func (e *c12Env) selectorOracle(out *c12Outcome, modelOK bool) error {
+func (e *c12Env) selectorOracle(out *c12Outcome, modelOK, race bool) error {
 	nm, reqs, runs, s, h, playReq := e.nm, e.reqs, e.runs, e.s, e.h, e.playReq
 	A, admitted := e.A, e.admitted
 	played := playReq >= 0 && runs[playReq].err == nil
@@ -1223,6 +1335,19 @@ func (e *c12Env) selectorOracle(out *c12Outcome, modelOK bool) error {
 		if !modelOK {
 			continue
 		}
+		if race {
+			// real goroutines: two selections on one address can each lock what the other needs and
+			// both give up (all-or-fail, like TryLock); such refusals are not judged
+			other := false
+			for j := range runs {
+				if j != i && reqs[j].Kind == "select" && reqs[j].Addr == reqs[i].Addr {
+					other = true
+				}
+			}
+			if other {
+				continue
+			}
+		}
 		// least amount a serial order can leave for this selector: only what exists both before and
 		// after all other requests (not spent by an admitted / played transaction, not created by a
 		// pending transaction the play evicted) and was not locked by another successful selector
@@ -1244,6 +1369,19 @@ func (e *c12Env) selectorOracle(out *c12Outcome, modelOK bool) error {
 		}
 	}
 	return nil
+}
+
+func c12KeyList(ks map[string]bool) []string {
+	var out []string
+	for k, x := range ks {
+		if x {
+			out = append(out, k+":X")
+		} else {
+			out = append(out, k+":S")
+		}
+	}
+	sort.Strings(out)
+	return out
 }
 
 func shortAddrC12(a string) string {
@@ -1422,7 +1560,7 @@ func (g *c12Gen) selector(addr int) *c12Req {
 }
 
 // c12GenReqs draws 2-4 requests chosen to conflict (all against the model state g.s).
-func c12GenReqs(g *c12Gen, cfg genCfg, playBlock int, exclude bool) ([]c12Req, string) {
+func c12GenReqs(g *c12Gen, cfg genCfg, playBlock int) ([]c12Req, string) {
 	rt := g.rt
 	var reqs []c12Req
 	add := func(r *c12Req) {
@@ -1431,7 +1569,8 @@ func c12GenReqs(g *c12Gen, cfg genCfg, playBlock int, exclude bool) ([]c12Req, s
 		}
 	}
 	fam := ""
-	switch f := rapid.IntRange(0, 99).Draw(rt, "family"); {
+	// rapid favours small numbers: the weighted families are interleaved over the 100 slots
+	switch f := c12FamilySlots[rapid.IntRange(0, 99).Draw(rt, "family")]; {
 	case f < 26:
 		fam = "2readers+2writers"
 		k := g.key()
@@ -1544,6 +1683,27 @@ func c12GenReqs(g *c12Gen, cfg genCfg, playBlock int, exclude bool) ([]c12Req, s
 	return reqs, fam
 }
 
+// c12FamilySlots maps a drawn slot to a number whose range selects the family (weights 26/12/12/12/
+// 10/14/14 as in the switch of c12GenReqs), interleaved so that every prefix of the slots has the
+// families in about these proportions.
+var c12FamilySlots = func() [100]int {
+	bounds := []int{0, 26, 38, 50, 62, 72, 86, 100}
+	var slots [100]int
+	given := make([]int, len(bounds)-1)
+	for i := 0; i < 100; i++ {
+		best, bestLag := 0, -1<<30
+		for f := range given {
+			w := bounds[f+1] - bounds[f]
+			if lag := w*(i+1) - given[f]*100; lag > bestLag {
+				best, bestLag = f, lag
+			}
+		}
+		given[best]++
+		slots[i] = bounds[best]
+	}
+	return slots
+}()
+
 // c12ReqKeysets assembles the requests' transactions on s (as the interpreter will) and returns
 // their lock keys (nil for non-dotx / not assemblable).
 func c12ReqKeysets(nm *hx.NodeMachine, s *hx.MState, reqs []c12Req) []map[string]bool {
@@ -1591,6 +1751,83 @@ func c12FanOut(rt *rapid.T, nm *hx.NodeMachine) hx.NOp {
 		op.Txs = append(op.Txs, spec)
 	}
 	return op
+}
+
+// c12StateCase is a generated Part B scenario on a live node machine (the caller closes it).
+type c12StateCase struct {
+	nm     *hx.NodeMachine
+	prefix []hx.NOp
+	reqs   []c12Req
+	fam    string
+	s      *hx.MState
+}
+
+// c12GenStateCase builds the sequential prefix on a fresh node machine and draws the concurrent
+// requests; nil = case discarded (labelled).
+func c12GenStateCase(t *testing.T, cs *hx.Case, fs *hx.FindingSet, cfg genCfg) *c12StateCase {
+	rt := cs.RT()
+	nm, err := hx.NewNodeMachine(hx.DefaultOpts(), fs)
+	if err != nil {
+		rt.Fatalf("setup: %v", err)
+	}
+	keep := false
+	defer func() {
+		if !keep {
+			nm.Close()
+		}
+	}()
+	prefixOK := true
+	var prefix []hx.NOp
+	exec := func(op hx.NOp) {
+		if !prefixOK {
+			return
+		}
+		cs.Op(c12StateTrace{Prefix: []hx.NOp{op}})
+		prefix = append(prefix, op)
+		if err := c12ApplyPrefix(nm, op); err != nil {
+			// a sequential failure is not C12's business (C01/C02/C03 own it)
+			prefixOK = false
+			t.Logf("C12: prefix operation failed (case discarded): %v", err)
+		}
+	}
+	exec(c12FanOut(rt, nm))
+	exec(hx.NOp{Op: "sync"})
+	np := rapid.IntRange(0, 4).Draw(rt, "nprefix")
+	for i := 0; i < np; i++ {
+		exec(genNodeOp(rt, nm, cfg))
+	}
+	if prefixOK && nm.Ptr != nm.LM.M.Tip {
+		exec(hx.NOp{Op: "sync"})
+	}
+	if !prefixOK {
+		cs.Label("prefix-failed")
+		return nil
+	}
+	if nm.Ptr != nm.LM.M.Tip {
+		cs.Label("prefix-pointer-not-at-tip")
+		return nil
+	}
+	playBlock := 0
+	if rapid.IntRange(0, 9).Draw(rt, "withplay") < 4 {
+		exec(genPeerOn(rt, nm, cfg, nm.Ptr))
+		if !prefixOK {
+			cs.Label("prefix-failed")
+			return nil
+		}
+		b := len(nm.LM.M.Blocks) - 1
+		if nm.LM.M.Blocks[b].Stored && nm.LM.M.Blocks[b].Parent == nm.Ptr && nm.Valid[b] {
+			playBlock = b
+		}
+	}
+	s := nm.PoolState()
+	g := &c12Gen{rt: rt, nm: nm, s: s, h: nm.LM.M.Blocks[nm.LM.M.Tip].Height, used: map[string]bool{}, keys: cfg.Keys}
+	reqs, fam := c12GenReqs(g, cfg, playBlock)
+	if len(reqs) < 2 {
+		cs.Label("fewer-than-2-requests")
+		return nil
+	}
+	keep = true
+	return &c12StateCase{nm: nm, prefix: prefix, reqs: reqs, fam: fam, s: s}
 }
 
 func c12PrefixCfg() genCfg {
@@ -1782,6 +2019,11 @@ func TestC12(t *testing.T) {
 			ths := c12GenLockScenario(cs)
 			cs.Op(c12LockTrace{Threads: ths})
 			pick, mode := c12RapidPicker(rt, len(ths), 30)
+			if _, hit := c12LockShape(ths); hit && c12Exclude[c12FindingWindow] {
+				// the scenario stays; only schedules that pre-empt inside the window are not emitted
+				cs.Exclude(c12FindingWindow)
+				pick = c12NoWindowPreempt(pick)
+			}
 			out := c12LockExec(ths, pick)
 			cs.Op(c12LockTrace{Sched: c12SchedOf(out.Steps)})
 			if out.Wedged {
@@ -1814,80 +2056,18 @@ func TestC12(t *testing.T) {
 	serialNotes := 0
 	c.Check(t, "state-schedules", hx.N(500, 12000), func(cs *hx.Case) {
 		rt := cs.RT()
-		nm, err := hx.NewNodeMachine(hx.DefaultOpts(), fs)
-		if err != nil {
-			rt.Fatalf("setup: %v", err)
+		sc := c12GenStateCase(t, cs, fs, cfg)
+		if sc == nil {
+			return
 		}
+		nm, prefix, reqs, fam, s := sc.nm, sc.prefix, sc.reqs, sc.fam, sc.s
 		defer nm.Close()
-		prefixOK := true
-		var prefix []hx.NOp
-		exec := func(op hx.NOp) {
-			if !prefixOK {
-				return
-			}
-			cs.Op(c12StateTrace{Prefix: []hx.NOp{op}})
-			prefix = append(prefix, op)
-			if err := c12ApplyPrefix(nm, op); err != nil {
-				// a sequential failure is not C12's business (C01/C02/C03 own it)
-				prefixOK = false
-				t.Logf("C12: prefix operation failed (case discarded): %v", err)
-			}
-		}
-		exec(c12FanOut(rt, nm))
-		exec(hx.NOp{Op: "sync"})
-		np := rapid.IntRange(0, 4).Draw(rt, "nprefix")
-		for i := 0; i < np; i++ {
-			exec(genNodeOp(rt, nm, cfg))
-		}
-		if prefixOK && nm.Ptr != nm.LM.M.Tip {
-			exec(hx.NOp{Op: "sync"})
-		}
-		if !prefixOK {
-			cs.Label("prefix-failed")
-			return
-		}
-		if nm.Ptr != nm.LM.M.Tip {
-			cs.Label("prefix-pointer-not-at-tip")
-			return
-		}
-		playBlock := 0
-		if rapid.IntRange(0, 9).Draw(rt, "withplay") < 4 {
-			exec(genPeerOn(rt, nm, cfg, nm.Ptr))
-			if !prefixOK {
-				cs.Label("prefix-failed")
-				return
-			}
-			b := len(nm.LM.M.Blocks) - 1
-			if nm.LM.M.Blocks[b].Stored && nm.LM.M.Blocks[b].Parent == nm.Ptr && nm.Valid[b] {
-				playBlock = b
-			}
-		}
-		s := nm.PoolState()
-		g := &c12Gen{rt: rt, nm: nm, s: s, h: nm.LM.M.Blocks[nm.LM.M.Tip].Height, used: map[string]bool{}, keys: cfg.Keys}
-		reqs, fam := c12GenReqs(g, cfg, playBlock, c12Exclude[c12FindingWindow])
-		if c12Exclude[c12FindingWindow] {
-			// drop readers until the trigger shape is gone
-			for {
-				ks := c12ReqKeysets(nm, s, reqs)
-				k, hit := c12StateShape(ks)
-				if !hit {
-					break
-				}
-				cs.Exclude(c12FindingWindow)
-				for i := range reqs {
-					if x, named := ks[i][k]; named && !x {
-						reqs = append(reqs[:i:i], reqs[i+1:]...)
-						break
-					}
-				}
-			}
-		}
-		if len(reqs) < 2 {
-			cs.Label("fewer-than-2-requests")
-			return
-		}
 		cs.Op(c12StateTrace{Reqs: reqs})
 		pick, mode := c12RapidPicker(rt, len(reqs), 60)
+		if _, hit := c12StateShape(c12ReqKeysets(nm, s, reqs)); hit && c12Exclude[c12FindingWindow] {
+			cs.Exclude(c12FindingWindow)
+			pick = c12NoWindowPreempt(pick)
+		}
 		out := c12Concurrent(nm, prefix, reqs, pick, fs)
 		cs.Op(c12StateTrace{Sched: c12SchedOf(out.Steps)})
 		if out.Wedged {
@@ -1915,6 +2095,95 @@ func TestC12(t *testing.T) {
 		}
 		if out.NT {
 			cs.Nontrivial()
+		}
+	})
+}
+
+// TestRaceC12 (Part C): the Part B scenarios with real goroutines and the same end-state oracle; the
+// driver runs it from a -race binary. Without the scheduler the window of finding
+// C12-spinlock-release-delete-window cannot be kept out of the schedule, so while that finding is
+// active its state-level trigger shape (>= 2 readers and >= 2 writers of one key) is not emitted.
+func TestRaceC12(t *testing.T) {
+	c := hx.NewCollector("C12", "exploration",
+		"Part C: the Part B scenarios (sequential prefix, then 2-4 concurrent DoTx/SelectUtxos/PlayAndRepost chosen to conflict) run as real goroutines released together, several repetitions per scenario, same end-state oracle as Part B (admitted set serialisable on the model, all observables, selectors disjoint, no panic, memory == disk); meant for a -race binary. Non-trivial = >= 2 DoTx requests sharing a lock key; distinct = hash of the scenario",
+		"the Go scheduler chooses the interleaving (not recorded): a failure is replayed as a Part B scenario under the cooperative scheduler or by repetition")
+	defer c.Flush(t)
+	fs := hx.LoadFindings()
+	resolveSharedFindings(fs, c)
+	excludeWindow := false
+	{
+		tr, err := c12LockWitness()
+		if err != nil {
+			if f, ok := fs.Listed(c12FindingWindow); ok && f.Status == "known" {
+				c.Known(f.What)
+			}
+			// listed or not (TestC12 reports an unlisted one), the shape is kept out of this search
+			excludeWindow = os.Getenv("C12_NO_EXCLUDE") != "1"
+			_ = tr
+		}
+	}
+	cfg := c12PrefixCfg()
+	c.Check(t, "race-goroutines", hx.N(120, 1500), func(cs *hx.Case) {
+		rt := cs.RT()
+		sc := c12GenStateCase(t, cs, fs, cfg)
+		if sc == nil {
+			return
+		}
+		defer sc.nm.Close()
+		reqs := sc.reqs
+		if excludeWindow {
+			for {
+				ks := c12ReqKeysets(sc.nm, sc.s, reqs)
+				k, hit := c12StateShape(ks)
+				if !hit {
+					break
+				}
+				cs.Exclude(c12FindingWindow)
+				for i := range reqs {
+					if x, named := ks[i][k]; named && !x {
+						reqs = append(reqs[:i:i], reqs[i+1:]...)
+						break
+					}
+				}
+			}
+		}
+		cs.Op(c12StateTrace{Reqs: reqs})
+		reps := rapid.IntRange(1, 3).Draw(rt, "repetitions")
+		for rep := 0; rep < reps; rep++ {
+			// every repetition needs a fresh node (selections stay locked, transactions admitted)
+			nm, err := hx.NewNodeMachine(hx.DefaultOpts(), fs)
+			if err != nil {
+				rt.Fatalf("setup: %v", err)
+			}
+			for _, op := range sc.prefix {
+				if err := c12ApplyPrefix(nm, op); err != nil {
+					nm.Close()
+					cs.Label("prefix-failed")
+					return
+				}
+			}
+			out := c12RaceRun(nm, sc.prefix, reqs, fs)
+			nm.Close()
+			if out.Wedged {
+				t.Fatalf("requests did not finish within 90 s (deadlock or harness wedged): inconclusive")
+			}
+			if out.Err != nil {
+				cs.Failf("repetition %d: %v", rep, out.Err)
+			}
+			for _, l := range out.Labels {
+				cs.Label(l)
+			}
+		}
+		cs.Label("family-" + sc.fam)
+		ks := c12ReqKeysets(sc.nm, sc.s, reqs)
+		for a := range ks {
+			for b := a + 1; b < len(ks); b++ {
+				for k := range ks[a] {
+					if _, ok := ks[b][k]; ok {
+						cs.NontrivialKey(c12StateTrace{Prefix: sc.prefix, Reqs: reqs})
+					}
+				}
+			}
 		}
 	})
 }
